@@ -9,10 +9,28 @@ type nat =
 | O
 | S of nat
 
+(** val fst : ('a1 * 'a2) -> 'a1 **)
+
+let fst = function
+| (x, _) -> x
+
 (** val snd : ('a1 * 'a2) -> 'a2 **)
 
 let snd = function
 | (_, y) -> y
+
+(** val length : 'a1 list -> nat **)
+
+let rec length = function
+| [] -> O
+| _ :: l' -> S (length l')
+
+(** val app : 'a1 list -> 'a1 list -> 'a1 list **)
+
+let rec app l m =
+  match l with
+  | [] -> m
+  | a :: l1 -> a :: (app l1 m)
 
 type comparison =
 | Eq
@@ -28,6 +46,15 @@ module Coq__1 = struct
 end
 include Coq__1
 
+(** val leb : nat -> nat -> bool **)
+
+let rec leb n0 m =
+  match n0 with
+  | O -> true
+  | S n' -> (match m with
+             | O -> false
+             | S m' -> leb n' m')
+
 type positive =
 | XI of positive
 | XO of positive
@@ -36,6 +63,29 @@ type positive =
 type n =
 | N0
 | Npos of positive
+
+module Nat =
+ struct
+  (** val eqb : nat -> nat -> bool **)
+
+  let rec eqb n0 m =
+    match n0 with
+    | O -> (match m with
+            | O -> true
+            | S _ -> false)
+    | S n' -> (match m with
+               | O -> false
+               | S m' -> eqb n' m')
+
+  (** val leb : nat -> nat -> bool **)
+
+  let rec leb n0 m =
+    match n0 with
+    | O -> true
+    | S n' -> (match m with
+               | O -> false
+               | S m' -> leb n' m')
+ end
 
 module Pos =
  struct
@@ -181,6 +231,11 @@ module Coq_Pos =
   | XO n' -> iter f (iter f x n') n'
   | XH -> f x
 
+  (** val pow : positive -> positive -> positive **)
+
+  let pow x =
+    iter (mul x) XH
+
   (** val compare_cont : comparison -> positive -> positive -> comparison **)
 
   let rec compare_cont r x y =
@@ -229,6 +284,24 @@ module Coq_Pos =
   let coq_Ndouble = function
   | N0 -> N0
   | Npos p -> Npos (XO p)
+
+  (** val coq_land : positive -> positive -> n **)
+
+  let rec coq_land p q =
+    match p with
+    | XI p0 ->
+      (match q with
+       | XI q0 -> coq_Nsucc_double (coq_land p0 q0)
+       | XO q0 -> coq_Ndouble (coq_land p0 q0)
+       | XH -> Npos XH)
+    | XO p0 ->
+      (match q with
+       | XI q0 -> coq_Ndouble (coq_land p0 q0)
+       | XO q0 -> coq_Ndouble (coq_land p0 q0)
+       | XH -> N0)
+    | XH -> (match q with
+             | XO _ -> N0
+             | _ -> Npos XH)
 
   (** val coq_lxor : positive -> positive -> n **)
 
@@ -371,6 +444,23 @@ module N =
     | Lt -> true
     | _ -> false
 
+  (** val div2 : n -> n **)
+
+  let div2 = function
+  | N0 -> N0
+  | Npos p0 -> (match p0 with
+                | XI p -> Npos p
+                | XO p -> Npos p
+                | XH -> N0)
+
+  (** val pow : n -> n -> n **)
+
+  let pow n0 = function
+  | N0 -> Npos XH
+  | Npos p0 -> (match n0 with
+                | N0 -> N0
+                | Npos q -> Npos (Coq_Pos.pow q p0))
+
   (** val pos_div_eucl : positive -> n -> n * n **)
 
   let rec pos_div_eucl a b =
@@ -399,10 +489,24 @@ module N =
                   | N0 -> (N0, a)
                   | Npos _ -> pos_div_eucl na b)
 
+  (** val div : n -> n -> n **)
+
+  let div a b =
+    fst (div_eucl a b)
+
   (** val modulo : n -> n -> n **)
 
   let modulo a b =
     snd (div_eucl a b)
+
+  (** val coq_land : n -> n -> n **)
+
+  let coq_land n0 m =
+    match n0 with
+    | N0 -> N0
+    | Npos p -> (match m with
+                 | N0 -> N0
+                 | Npos q -> Coq_Pos.coq_land p q)
 
   (** val coq_lxor : n -> n -> n **)
 
@@ -419,6 +523,12 @@ module N =
     match a with
     | N0 -> N0
     | Npos a0 -> Npos (Coq_Pos.shiftl a0 n0)
+
+  (** val shiftr : n -> n -> n **)
+
+  let shiftr a = function
+  | N0 -> a
+  | Npos p -> Coq_Pos.iter div2 a p
 
   (** val testbit : n -> n -> bool **)
 
@@ -461,11 +571,47 @@ let rec nth_error l = function
            | [] -> None
            | _ :: l0 -> nth_error l0 n1)
 
+(** val concat : 'a1 list list -> 'a1 list **)
+
+let rec concat = function
+| [] -> []
+| x :: l0 -> app x (concat l0)
+
 (** val map : ('a1 -> 'a2) -> 'a1 list -> 'a2 list **)
 
 let rec map f = function
 | [] -> []
 | a :: t -> (f a) :: (map f t)
+
+(** val fold_right : ('a2 -> 'a1 -> 'a1) -> 'a1 -> 'a2 list -> 'a1 **)
+
+let rec fold_right f a0 = function
+| [] -> a0
+| b :: t -> f b (fold_right f a0 t)
+
+(** val filter : ('a1 -> bool) -> 'a1 list -> 'a1 list **)
+
+let rec filter f = function
+| [] -> []
+| x :: l0 -> if f x then x :: (filter f l0) else filter f l0
+
+(** val firstn : nat -> 'a1 list -> 'a1 list **)
+
+let rec firstn n0 l =
+  match n0 with
+  | O -> []
+  | S n1 -> (match l with
+             | [] -> []
+             | a :: l0 -> a :: (firstn n1 l0))
+
+(** val skipn : nat -> 'a1 list -> 'a1 list **)
+
+let rec skipn n0 l =
+  match n0 with
+  | O -> l
+  | S n1 -> (match l with
+             | [] -> []
+             | _ :: l0 -> skipn n1 l0)
 
 (** val seq : nat -> nat -> nat list **)
 
@@ -494,12 +640,48 @@ let obind x f =
   | Ok a -> f a
   | Panic c -> Panic c
 
+(** val omap : ('a1 -> 'a2) -> 'a1 outcome -> 'a2 outcome **)
+
+let omap f = function
+| Ok a -> Ok (f a)
+| Panic c -> Panic c
+
+(** val assert_ok : bool -> unit outcome **)
+
+let assert_ok = function
+| true -> Ok ()
+| false -> Panic PAssert
+
 (** val nth_ok : 'a1 list -> nat -> 'a1 outcome **)
 
 let nth_ok l i =
   match nth_error l i with
   | Some a -> Ok a
   | None -> Panic PIndex
+
+type mode =
+| Release
+| Checked
+
+(** val wrap : n -> n -> n **)
+
+let wrap w x =
+  N.modulo x (N.pow (Npos (XO XH)) w)
+
+(** val u8 : n -> n **)
+
+let u8 =
+  wrap (Npos (XO (XO (XO XH))))
+
+(** val u32 : n -> n **)
+
+let u32 =
+  wrap (Npos (XO (XO (XO (XO (XO XH))))))
+
+(** val rem_ok : n -> n -> n outcome **)
+
+let rem_ok a b =
+  if N.eqb b N0 then Panic PDivZero else Ok (N.modulo a b)
 
 (** val rangeN : nat -> n list **)
 
@@ -511,6 +693,30 @@ let rangeN n0 =
 let rec xsum = function
 | [] -> N0
 | x :: t -> N.coq_lxor x (xsum t)
+
+(** val mAX_SOURCE_SYMBOLS_PER_BLOCK : n **)
+
+let mAX_SOURCE_SYMBOLS_PER_BLOCK =
+  Npos (XI (XI (XO (XO (XI (XO (XI (XO (XO (XO (XI (XI (XI (XO (XI
+    XH)))))))))))))))
+
+(** val pLAN_CACHE_CAPACITY : n **)
+
+let pLAN_CACHE_CAPACITY =
+  Npos (XO (XO (XO (XO (XO (XO XH))))))
+
+(** val mAX_TRANSFER_LENGTH : n **)
+
+let mAX_TRANSFER_LENGTH =
+  Npos (XI (XI (XO (XO (XI (XO (XI (XO (XI (XO (XO (XI (XO (XO (XO (XI (XI
+    (XO (XO (XO (XI (XO (XI (XI (XI (XO (XI (XO (XI (XI (XI (XO (XI (XI (XO
+    (XI (XI (XO (XI XH)))))))))))))))))))))))))))))))))))))))
+
+(** val eSI_LIMIT : n **)
+
+let eSI_LIMIT =
+  Npos (XO (XO (XO (XO (XO (XO (XO (XO (XO (XO (XO (XO (XO (XO (XO (XO (XO
+    (XO (XO (XO (XO (XO (XO (XO XH))))))))))))))))))))))))
 
 (** val pOLY : n **)
 
@@ -553,6 +759,49 @@ let pmul a b =
 let rec ppow2 = function
 | O -> Npos XH
 | S j -> xtime (ppow2 j)
+
+(** val be : nat -> n -> n list **)
+
+let rec be w x =
+  match w with
+  | O -> []
+  | S w' ->
+    (N.modulo
+      (N.div x
+        (N.pow (Npos (XO (XO (XO (XO (XO (XO (XO (XO XH)))))))))
+          (N.of_nat w'))) (Npos (XO (XO (XO (XO (XO (XO (XO (XO XH)))))))))) :: 
+      (be w' x)
+
+(** val payload_id_wire : n -> n -> n list **)
+
+let payload_id_wire sbn esi =
+  sbn :: (be (S (S (S O))) esi)
+
+(** val oti_wire : n -> n -> n -> n -> n -> n list **)
+
+let oti_wire f t z nsub al =
+  app (be (S (S (S (S (S O))))) f)
+    (app (N0 :: [])
+      (app (be (S (S O)) t)
+        (app (z :: []) (app (be (S (S O)) nsub) (al :: [])))))
+
+(** val cdiv : n -> n -> n **)
+
+let cdiv a b =
+  N.div (N.sub (N.add a b) (Npos XH)) b
+
+(** val oti_validb : n -> n -> n -> n -> bool **)
+
+let oti_validb f t z al =
+  (&&)
+    ((&&)
+      (N.leb f (Npos (XI (XI (XO (XO (XI (XO (XI (XO (XI (XO (XO (XI (XO (XO
+        (XO (XI (XI (XO (XO (XO (XI (XO (XI (XI (XI (XO (XI (XO (XI (XI (XI
+        (XO (XI (XI (XO (XI (XI (XO (XI
+        XH)))))))))))))))))))))))))))))))))))))))))
+      (N.eqb (N.modulo t al) N0))
+    (N.leb (cdiv (cdiv f t) z) (Npos (XI (XI (XO (XO (XI (XO (XI (XO (XO (XO
+      (XI (XI (XI (XO (XI XH)))))))))))))))))
 
 (** val oCT_EXP : n list **)
 
@@ -1206,6 +1455,383 @@ let octet_mul_hi_table =
 let tbl2 t i j =
   obind (nth_ok t (N.to_nat i)) (fun r -> nth_ok r (N.to_nat j))
 
+(** val pid_new : n -> n -> (n * n) outcome **)
+
+let pid_new sbn esi =
+  if N.ltb esi eSI_LIMIT then Ok (sbn, esi) else Panic PAssert
+
+(** val pid_ser : (n * n) -> n list **)
+
+let pid_ser = function
+| (sbn, esi) ->
+  sbn :: ((u8 (N.shiftr esi (Npos (XO (XO (XO (XO XH))))))) :: ((u8
+                                                                  (N.coq_land
+                                                                    (N.shiftr
+                                                                    esi (Npos
+                                                                    (XO (XO
+                                                                    (XO
+                                                                    XH)))))
+                                                                    (Npos (XI
+                                                                    (XI (XI
+                                                                    (XI (XI
+                                                                    (XI (XI
+                                                                    XH)))))))))) :: (
+    (u8 (N.coq_land esi (Npos (XI (XI (XI (XI (XI (XI (XI XH)))))))))) :: [])))
+
+(** val pid_deser : n list -> (n * n) outcome **)
+
+let pid_deser = function
+| [] -> Panic PIndex
+| d0 :: l ->
+  (match l with
+   | [] -> Panic PIndex
+   | d1 :: l0 ->
+     (match l0 with
+      | [] -> Panic PIndex
+      | d2 :: l1 ->
+        (match l1 with
+         | [] -> Panic PIndex
+         | d3 :: l2 ->
+           (match l2 with
+            | [] ->
+              Ok (d0,
+                (N.add
+                  (N.add (N.shiftl d1 (Npos (XO (XO (XO (XO XH))))))
+                    (N.shiftl d2 (Npos (XO (XO (XO XH)))))) d3))
+            | _ :: _ -> Panic PIndex))))
+
+(** val slice_from : 'a1 list -> nat -> 'a1 list outcome **)
+
+let slice_from l n0 =
+  if leb n0 (length l) then Ok (skipn n0 l) else Panic PIndex
+
+(** val pkt_ser : ((n * n) * n list) -> n list **)
+
+let pkt_ser = function
+| (id, data) -> app (pid_ser id) data
+
+(** val pkt_deser : n list -> ((n * n) * n list) outcome **)
+
+let pkt_deser b =
+  obind (nth_ok b O) (fun d0 ->
+    obind (nth_ok b (S O)) (fun d1 ->
+      obind (nth_ok b (S (S O))) (fun d2 ->
+        obind (nth_ok b (S (S (S O)))) (fun d3 ->
+          obind (pid_deser (d0 :: (d1 :: (d2 :: (d3 :: []))))) (fun id ->
+            obind (slice_from b (S (S (S (S O))))) (fun rest -> Ok (id, rest)))))))
+
+type oti = (((n * n) * n) * n) * n
+
+(** val oti_ser : oti -> n list **)
+
+let oti_ser = function
+| (p, al) ->
+  let (p0, nsub) = p in
+  let (p1, z) = p0 in
+  let (f, t) = p1 in
+  (u8
+    (N.coq_land (N.shiftr f (Npos (XO (XO (XO (XO (XO XH))))))) (Npos (XI (XI
+      (XI (XI (XI (XI (XI XH)))))))))) :: ((u8
+                                             (N.coq_land
+                                               (N.shiftr f (Npos (XO (XO (XO
+                                                 (XI XH)))))) (Npos (XI (XI
+                                               (XI (XI (XI (XI (XI XH)))))))))) :: (
+  (u8
+    (N.coq_land (N.shiftr f (Npos (XO (XO (XO (XO XH)))))) (Npos (XI (XI (XI
+      (XI (XI (XI (XI XH)))))))))) :: ((u8
+                                         (N.coq_land
+                                           (N.shiftr f (Npos (XO (XO (XO
+                                             XH))))) (Npos (XI (XI (XI (XI
+                                           (XI (XI (XI XH)))))))))) :: (
+  (u8 (N.coq_land f (Npos (XI (XI (XI (XI (XI (XI (XI XH)))))))))) :: (N0 :: (
+  (u8 (N.shiftr t (Npos (XO (XO (XO XH)))))) :: ((u8
+                                                   (N.coq_land t (Npos (XI
+                                                     (XI (XI (XI (XI (XI (XI
+                                                     XH)))))))))) :: (z :: (
+  (u8 (N.shiftr nsub (Npos (XO (XO (XO XH)))))) :: ((u8
+                                                      (N.coq_land nsub (Npos
+                                                        (XI (XI (XI (XI (XI
+                                                        (XI (XI XH)))))))))) :: (al :: [])))))))))))
+
+(** val oti_deser : n list -> oti outcome **)
+
+let oti_deser = function
+| [] -> Panic PIndex
+| d0 :: l ->
+  (match l with
+   | [] -> Panic PIndex
+   | d1 :: l0 ->
+     (match l0 with
+      | [] -> Panic PIndex
+      | d2 :: l1 ->
+        (match l1 with
+         | [] -> Panic PIndex
+         | d3 :: l2 ->
+           (match l2 with
+            | [] -> Panic PIndex
+            | d4 :: l3 ->
+              (match l3 with
+               | [] -> Panic PIndex
+               | _ :: l4 ->
+                 (match l4 with
+                  | [] -> Panic PIndex
+                  | d6 :: l5 ->
+                    (match l5 with
+                     | [] -> Panic PIndex
+                     | d7 :: l6 ->
+                       (match l6 with
+                        | [] -> Panic PIndex
+                        | d8 :: l7 ->
+                          (match l7 with
+                           | [] -> Panic PIndex
+                           | d9 :: l8 ->
+                             (match l8 with
+                              | [] -> Panic PIndex
+                              | d10 :: l9 ->
+                                (match l9 with
+                                 | [] -> Panic PIndex
+                                 | d11 :: l10 ->
+                                   (match l10 with
+                                    | [] ->
+                                      Ok
+                                        (((((N.add
+                                              (N.add
+                                                (N.add
+                                                  (N.add
+                                                    (N.shiftl d0 (Npos (XO
+                                                      (XO (XO (XO (XO
+                                                      XH)))))))
+                                                    (N.shiftl d1 (Npos (XO
+                                                      (XO (XO (XI XH)))))))
+                                                  (N.shiftl d2 (Npos (XO (XO
+                                                    (XO (XO XH)))))))
+                                                (N.shiftl d3 (Npos (XO (XO
+                                                  (XO XH)))))) d4),
+                                        (N.add
+                                          (N.shiftl d6 (Npos (XO (XO (XO
+                                            XH))))) d7)), d8),
+                                        (N.add
+                                          (N.shiftl d9 (Npos (XO (XO (XO
+                                            XH))))) d10)), d11)
+                                    | _ :: _ -> Panic PIndex))))))))))))
+
+(** val ceil_div64 : n -> n -> n **)
+
+let ceil_div64 num den =
+  if N.eqb (N.modulo num den) N0
+  then N.div num den
+  else N.add (N.div num den) (Npos XH)
+
+(** val int_div_ceil_pinned : n -> n -> n **)
+
+let int_div_ceil_pinned num den =
+  u32
+    (if N.eqb (N.modulo num den) N0
+     then N.div num den
+     else N.add (N.div num den) (Npos XH))
+
+(** val oti_new_gen :
+    (n -> n -> n) -> mode -> n -> n -> n -> n -> n -> oti outcome **)
+
+let oti_new_gen idc _ f t z nsub al =
+  obind (assert_ok (N.leb f mAX_TRANSFER_LENGTH)) (fun _ ->
+    obind (rem_ok t al) (fun r ->
+      obind (assert_ok (N.eqb r N0)) (fun _ ->
+        obind
+          (if (&&) (negb (N.eqb t N0)) (negb (N.eqb z N0))
+           then let symbols_required = idc (idc f t) z in
+                assert_ok
+                  (N.leb symbols_required mAX_SOURCE_SYMBOLS_PER_BLOCK)
+           else Ok ()) (fun _ -> Ok ((((f, t), z), nsub), al)))))
+
+(** val oti_new_pinned : mode -> n -> n -> n -> n -> n -> oti outcome **)
+
+let oti_new_pinned =
+  oti_new_gen int_div_ceil_pinned
+
+(** val oti_new_fixed : mode -> n -> n -> n -> n -> n -> oti outcome **)
+
+let oti_new_fixed =
+  oti_new_gen ceil_div64
+
+(** val oti_new : mode -> n -> n -> n -> n -> n -> oti outcome **)
+
+let oti_new =
+  oti_new_fixed
+
+(** val assoc_get : n -> (n * 'a1) list -> 'a1 option **)
+
+let rec assoc_get k = function
+| [] -> None
+| p :: t -> let (k', v) = p in if N.eqb k' k then Some v else assoc_get k t
+
+(** val assoc_remove : n -> (n * 'a1) list -> (n * 'a1) list **)
+
+let assoc_remove k l =
+  filter (fun kv -> negb (N.eqb (fst kv) k)) l
+
+(** val assoc_insert : n -> 'a1 -> (n * 'a1) list -> (n * 'a1) list **)
+
+let rec assoc_insert k v = function
+| [] -> (k, v) :: []
+| p :: t ->
+  let (k', v') = p in
+  if N.eqb k' k then (k, v) :: t else (k', v') :: (assoc_insert k v t)
+
+(** val keys : (n * 'a1) list -> n list **)
+
+let keys l =
+  map fst l
+
+type 'plan pc =
+| Idle
+| Missed of n
+| Generated of n * 'plan
+
+(** val get_pc : nat -> (nat * 'a1 pc) list -> 'a1 pc **)
+
+let rec get_pc t = function
+| [] -> Idle
+| p :: r -> let (t', c) = p in if Nat.eqb t' t then c else get_pc t r
+
+(** val set_pc :
+    nat -> 'a1 pc -> (nat * 'a1 pc) list -> (nat * 'a1 pc) list **)
+
+let rec set_pc t c = function
+| [] -> (t, c) :: []
+| p :: r ->
+  let (t', c') = p in
+  if Nat.eqb t' t then (t, c) :: r else (t', c') :: (set_pc t c r)
+
+type 'plan sysstate = { plans : (n * 'plan) list; order : n list;
+                        threads : (nat * 'plan pc) list }
+
+type step =
+| Lookup of nat * n
+| Generate of nat
+| Insert of nat
+
+type 'plan event =
+| Ret of nat * n * 'plan
+
+(** val init : 'a1 sysstate **)
+
+let init =
+  { plans = []; order = []; threads = [] }
+
+(** val do_lookup :
+    nat -> n -> 'a1 sysstate -> 'a1 sysstate * 'a1 event list **)
+
+let do_lookup t k st =
+  match get_pc t st.threads with
+  | Idle ->
+    (match assoc_get k st.plans with
+     | Some p -> (st, ((Ret (t, k, p)) :: []))
+     | None ->
+       ({ plans = st.plans; order = st.order; threads =
+         (set_pc t (Missed k) st.threads) }, []))
+  | _ -> (st, [])
+
+(** val do_generate :
+    (n -> 'a1) -> nat -> 'a1 sysstate -> 'a1 sysstate * 'a1 event list **)
+
+let do_generate gen t st =
+  match get_pc t st.threads with
+  | Missed k ->
+    ({ plans = st.plans; order = st.order; threads =
+      (set_pc t (Generated (k, (gen k))) st.threads) }, [])
+  | _ -> (st, [])
+
+(** val evict : nat -> (n * 'a1) list -> n list -> (n * 'a1) list * n list **)
+
+let evict capacity pl ord =
+  if Nat.leb capacity (length pl)
+  then (match ord with
+        | [] -> (pl, ord)
+        | e :: rest -> ((assoc_remove e pl), rest))
+  else (pl, ord)
+
+(** val do_insert :
+    nat -> nat -> 'a1 sysstate -> 'a1 sysstate * 'a1 event list **)
+
+let do_insert capacity t st =
+  match get_pc t st.threads with
+  | Generated (k, p) ->
+    (match assoc_get k st.plans with
+     | Some p' ->
+       ({ plans = st.plans; order = st.order; threads =
+         (set_pc t Idle st.threads) }, ((Ret (t, k, p')) :: []))
+     | None ->
+       let (pl1, ord1) = evict capacity st.plans st.order in
+       ({ plans = (assoc_insert k p pl1); order = (app ord1 (k :: []));
+       threads = (set_pc t Idle st.threads) }, ((Ret (t, k, p)) :: [])))
+  | _ -> (st, [])
+
+(** val exec :
+    (n -> 'a1) -> nat -> step -> 'a1 sysstate -> 'a1 sysstate * 'a1 event list **)
+
+let exec gen capacity s st =
+  match s with
+  | Lookup (t, k) -> do_lookup t k st
+  | Generate t -> do_generate gen t st
+  | Insert t -> do_insert capacity t st
+
+(** val insert_sorted : n -> n list -> n list **)
+
+let rec insert_sorted x l = match l with
+| [] -> x :: []
+| y :: t -> if N.leb x y then x :: l else y :: (insert_sorted x t)
+
+(** val sort_N : n list -> n list **)
+
+let sort_N l =
+  fold_right insert_sorted [] l
+
+(** val decode_step : ((n * n) * n) -> step option **)
+
+let decode_step = function
+| (p, k) ->
+  let (t, kind) = p in
+  (match kind with
+   | N0 -> Some (Lookup ((N.to_nat t), k))
+   | Npos p0 ->
+     (match p0 with
+      | XI _ -> None
+      | XO p1 -> (match p1 with
+                  | XH -> Some (Insert (N.to_nat t))
+                  | _ -> None)
+      | XH -> Some (Generate (N.to_nat t))))
+
+(** val observe : n sysstate -> n event list -> n list **)
+
+let observe st evs =
+  app
+    (match evs with
+     | [] -> N0 :: (N0 :: [])
+     | e :: _ -> let Ret (_, _, p) = e in (Npos XH) :: (p :: []))
+    (app ((N.of_nat (length st.order)) :: [])
+      (app st.order
+        (app ((N.of_nat (length st.plans)) :: []) (sort_N (keys st.plans)))))
+
+(** val cache_trace_from :
+    nat -> ((n * n) * n) list -> n sysstate -> n list list **)
+
+let rec cache_trace_from capacity sched st =
+  match sched with
+  | [] -> []
+  | e :: rest ->
+    let (st1, evs) =
+      match decode_step e with
+      | Some s -> exec (fun k -> k) capacity s st
+      | None -> (st, [])
+    in
+    (observe st1 evs) :: (cache_trace_from capacity rest st1)
+
+(** val cache_trace : nat -> ((n * n) * n) list -> n list list **)
+
+let cache_trace capacity sched =
+  cache_trace_from capacity sched init
+
 (** val pcode : pclass -> n **)
 
 let pcode = function
@@ -1222,6 +1848,12 @@ let pcode = function
 
 let enc1 = function
 | Ok v -> (Npos XH) :: (v :: [])
+| Panic c -> N0 :: ((pcode c) :: [])
+
+(** val encl : n list outcome -> n list **)
+
+let encl = function
+| Ok l -> (Npos XH) :: l
 | Panic c -> N0 :: ((pcode c) :: [])
 
 (** val arg : n list -> nat -> n **)
@@ -1298,9 +1930,332 @@ let run_octet f a =
         | XH -> enc1 (oct_mul (arg a O) (arg a (S O))))
      | XH -> (Npos XH) :: ((oct_add (arg a O) (arg a (S O))) :: []))
 
+(** val b2n : bool -> n **)
+
+let b2n = function
+| true -> Npos XH
+| false -> N0
+
+(** val enc_pid : (n * n) outcome -> n list **)
+
+let enc_pid = function
+| Ok a -> let (s, e) = a in (Npos XH) :: (s :: (e :: []))
+| Panic c -> N0 :: ((pcode c) :: [])
+
+(** val oti_list : oti -> n list **)
+
+let oti_list = function
+| (p, al) ->
+  let (p0, nsub) = p in
+  let (p1, z) = p0 in
+  let (f, t) = p1 in f :: (t :: (z :: (nsub :: (al :: []))))
+
+(** val enc_oti : oti outcome -> n list **)
+
+let enc_oti = function
+| Ok o -> (Npos XH) :: (oti_list o)
+| Panic c -> N0 :: ((pcode c) :: [])
+
+(** val triples : n list -> ((n * n) * n) list **)
+
+let rec triples = function
+| [] -> []
+| a :: l0 ->
+  (match l0 with
+   | [] -> []
+   | b :: l1 ->
+     (match l1 with
+      | [] -> []
+      | c :: t -> ((a, b), c) :: (triples t)))
+
+(** val run_wire : n -> n list -> n list **)
+
+let run_wire f a =
+  match f with
+  | N0 -> N0 :: ((Npos (XI (XI (XO (XO (XO (XI XH))))))) :: [])
+  | Npos p ->
+    (match p with
+     | XI p0 ->
+       (match p0 with
+        | XI p1 ->
+          (match p1 with
+           | XI p2 ->
+             (match p2 with
+              | XI p3 ->
+                (match p3 with
+                 | XO p4 ->
+                   (match p4 with
+                    | XI p5 ->
+                      (match p5 with
+                       | XH ->
+                         enc_oti
+                           (oti_new Checked (arg a O) (arg a (S O))
+                             (arg a (S (S O))) (arg a (S (S (S O))))
+                             (arg a (S (S (S (S O))))))
+                       | _ ->
+                         N0 :: ((Npos (XI (XI (XO (XO (XO (XI XH))))))) :: []))
+                    | _ ->
+                      N0 :: ((Npos (XI (XI (XO (XO (XO (XI XH))))))) :: []))
+                 | _ -> N0 :: ((Npos (XI (XI (XO (XO (XO (XI XH))))))) :: []))
+              | XO p3 ->
+                (match p3 with
+                 | XI p4 ->
+                   (match p4 with
+                    | XO p5 ->
+                      (match p5 with
+                       | XO p6 ->
+                         (match p6 with
+                          | XH ->
+                            (Npos
+                              XH) :: (oti_wire (arg a O) (arg a (S O))
+                                       (arg a (S (S O)))
+                                       (arg a (S (S (S O))))
+                                       (arg a (S (S (S (S O))))))
+                          | _ ->
+                            N0 :: ((Npos (XI (XI (XO (XO (XO (XI
+                              XH))))))) :: []))
+                       | _ ->
+                         N0 :: ((Npos (XI (XI (XO (XO (XO (XI XH))))))) :: []))
+                    | _ ->
+                      N0 :: ((Npos (XI (XI (XO (XO (XO (XI XH))))))) :: []))
+                 | XO p4 ->
+                   (match p4 with
+                    | XI p5 ->
+                      (match p5 with
+                       | XH ->
+                         encl
+                           (omap (fun p6 ->
+                             pkt_ser (p6, (skipn (S (S O)) a)))
+                             (pid_new (arg a O) (arg a (S O))))
+                       | _ ->
+                         N0 :: ((Npos (XI (XI (XO (XO (XO (XI XH))))))) :: []))
+                    | _ ->
+                      N0 :: ((Npos (XI (XI (XO (XO (XO (XI XH))))))) :: []))
+                 | XH -> N0 :: ((Npos (XI (XI (XO (XO (XO (XI XH))))))) :: []))
+              | XH -> N0 :: ((Npos (XI (XI (XO (XO (XO (XI XH))))))) :: []))
+           | _ -> N0 :: ((Npos (XI (XI (XO (XO (XO (XI XH))))))) :: []))
+        | XO p1 ->
+          (match p1 with
+           | XI p2 ->
+             (match p2 with
+              | XO p3 ->
+                (match p3 with
+                 | XO p4 ->
+                   (match p4 with
+                    | XI p5 ->
+                      (match p5 with
+                       | XH ->
+                         encl (omap pid_ser (pid_new (arg a O) (arg a (S O))))
+                       | _ ->
+                         N0 :: ((Npos (XI (XI (XO (XO (XO (XI XH))))))) :: []))
+                    | _ ->
+                      N0 :: ((Npos (XI (XI (XO (XO (XO (XI XH))))))) :: []))
+                 | _ -> N0 :: ((Npos (XI (XI (XO (XO (XO (XI XH))))))) :: []))
+              | _ -> N0 :: ((Npos (XI (XI (XO (XO (XO (XI XH))))))) :: []))
+           | XO p2 ->
+             (match p2 with
+              | XI p3 ->
+                (match p3 with
+                 | XI p4 ->
+                   (match p4 with
+                    | XO p5 ->
+                      (match p5 with
+                       | XO p6 ->
+                         (match p6 with
+                          | XH ->
+                            (Npos
+                              XH) :: (be (N.to_nat (arg a O)) (arg a (S O)))
+                          | _ ->
+                            N0 :: ((Npos (XI (XI (XO (XO (XO (XI
+                              XH))))))) :: []))
+                       | _ ->
+                         N0 :: ((Npos (XI (XI (XO (XO (XO (XI XH))))))) :: []))
+                    | _ ->
+                      N0 :: ((Npos (XI (XI (XO (XO (XO (XI XH))))))) :: []))
+                 | XO p4 ->
+                   (match p4 with
+                    | XI p5 ->
+                      (match p5 with
+                       | XH ->
+                         encl
+                           (omap oti_ser
+                             (oti_new Release (arg a O) (arg a (S O))
+                               (arg a (S (S O))) (arg a (S (S (S O))))
+                               (arg a (S (S (S (S O)))))))
+                       | _ ->
+                         N0 :: ((Npos (XI (XI (XO (XO (XO (XI XH))))))) :: []))
+                    | _ ->
+                      N0 :: ((Npos (XI (XI (XO (XO (XO (XI XH))))))) :: []))
+                 | XH -> N0 :: ((Npos (XI (XI (XO (XO (XO (XI XH))))))) :: []))
+              | _ -> N0 :: ((Npos (XI (XI (XO (XO (XO (XI XH))))))) :: []))
+           | XH -> N0 :: ((Npos (XI (XI (XO (XO (XO (XI XH))))))) :: []))
+        | XH -> N0 :: ((Npos (XI (XI (XO (XO (XO (XI XH))))))) :: []))
+     | XO p0 ->
+       (match p0 with
+        | XI p1 ->
+          (match p1 with
+           | XI p2 ->
+             (match p2 with
+              | XI p3 ->
+                (match p3 with
+                 | XO p4 ->
+                   (match p4 with
+                    | XI p5 ->
+                      (match p5 with
+                       | XH ->
+                         enc_oti
+                           (oti_new Release (arg a O) (arg a (S O))
+                             (arg a (S (S O))) (arg a (S (S (S O))))
+                             (arg a (S (S (S (S O))))))
+                       | _ ->
+                         N0 :: ((Npos (XI (XI (XO (XO (XO (XI XH))))))) :: []))
+                    | _ ->
+                      N0 :: ((Npos (XI (XI (XO (XO (XO (XI XH))))))) :: []))
+                 | _ -> N0 :: ((Npos (XI (XI (XO (XO (XO (XI XH))))))) :: []))
+              | XO p3 ->
+                (match p3 with
+                 | XI p4 ->
+                   (match p4 with
+                    | XO p5 ->
+                      (match p5 with
+                       | XO p6 ->
+                         (match p6 with
+                          | XH ->
+                            (Npos
+                              XH) :: (payload_id_wire (arg a O) (arg a (S O)))
+                          | _ ->
+                            N0 :: ((Npos (XI (XI (XO (XO (XO (XI
+                              XH))))))) :: []))
+                       | _ ->
+                         N0 :: ((Npos (XI (XI (XO (XO (XO (XI XH))))))) :: []))
+                    | _ ->
+                      N0 :: ((Npos (XI (XI (XO (XO (XO (XI XH))))))) :: []))
+                 | XO p4 ->
+                   (match p4 with
+                    | XI p5 ->
+                      (match p5 with
+                       | XH ->
+                         encl
+                           (omap (fun p6 ->
+                             app ((fst p6) :: ((snd p6) :: [])) (pid_ser p6))
+                             (pid_deser (firstn (S (S (S (S O)))) a)))
+                       | _ ->
+                         N0 :: ((Npos (XI (XI (XO (XO (XO (XI XH))))))) :: []))
+                    | _ ->
+                      N0 :: ((Npos (XI (XI (XO (XO (XO (XI XH))))))) :: []))
+                 | XH -> N0 :: ((Npos (XI (XI (XO (XO (XO (XI XH))))))) :: []))
+              | XH -> N0 :: ((Npos (XI (XI (XO (XO (XO (XI XH))))))) :: []))
+           | XO p2 ->
+             (match p2 with
+              | XI p3 ->
+                (match p3 with
+                 | XO p4 ->
+                   (match p4 with
+                    | XI p5 ->
+                      (match p5 with
+                       | XH ->
+                         encl
+                           (omap (fun o -> app (oti_list o) (oti_ser o))
+                             (oti_deser
+                               (firstn (S (S (S (S (S (S (S (S (S (S (S (S
+                                 O)))))))))))) a)))
+                       | _ ->
+                         N0 :: ((Npos (XI (XI (XO (XO (XO (XI XH))))))) :: []))
+                    | _ ->
+                      N0 :: ((Npos (XI (XI (XO (XO (XO (XI XH))))))) :: []))
+                 | _ -> N0 :: ((Npos (XI (XI (XO (XO (XO (XI XH))))))) :: []))
+              | _ -> N0 :: ((Npos (XI (XI (XO (XO (XO (XI XH))))))) :: []))
+           | XH -> N0 :: ((Npos (XI (XI (XO (XO (XO (XI XH))))))) :: []))
+        | XO p1 ->
+          (match p1 with
+           | XI p2 ->
+             (match p2 with
+              | XO p3 ->
+                (match p3 with
+                 | XO p4 ->
+                   (match p4 with
+                    | XI p5 ->
+                      (match p5 with
+                       | XH -> enc_pid (pid_new (arg a O) (arg a (S O)))
+                       | _ ->
+                         N0 :: ((Npos (XI (XI (XO (XO (XO (XI XH))))))) :: []))
+                    | _ ->
+                      N0 :: ((Npos (XI (XI (XO (XO (XO (XI XH))))))) :: []))
+                 | _ -> N0 :: ((Npos (XI (XI (XO (XO (XO (XI XH))))))) :: []))
+              | _ -> N0 :: ((Npos (XI (XI (XO (XO (XO (XI XH))))))) :: []))
+           | XO p2 ->
+             (match p2 with
+              | XI p3 ->
+                (match p3 with
+                 | XI p4 ->
+                   (match p4 with
+                    | XI p5 ->
+                      (match p5 with
+                       | XH ->
+                         (Npos
+                           XH) :: (concat
+                                    (cache_trace
+                                      (N.to_nat pLAN_CACHE_CAPACITY)
+                                      (triples a)))
+                       | _ ->
+                         N0 :: ((Npos (XI (XI (XO (XO (XO (XI XH))))))) :: []))
+                    | XO p5 ->
+                      (match p5 with
+                       | XO p6 ->
+                         (match p6 with
+                          | XH ->
+                            (Npos
+                              XH) :: ((b2n
+                                        (oti_validb (arg a O) (arg a (S O))
+                                          (arg a (S (S O)))
+                                          (arg a (S (S (S (S O))))))) :: [])
+                          | _ ->
+                            N0 :: ((Npos (XI (XI (XO (XO (XO (XI
+                              XH))))))) :: []))
+                       | _ ->
+                         N0 :: ((Npos (XI (XI (XO (XO (XO (XI XH))))))) :: []))
+                    | XH ->
+                      N0 :: ((Npos (XI (XI (XO (XO (XO (XI XH))))))) :: []))
+                 | XO p4 ->
+                   (match p4 with
+                    | XI p5 ->
+                      (match p5 with
+                       | XH ->
+                         encl
+                           (omap (fun p6 ->
+                             (fst (fst p6)) :: ((snd (fst p6)) :: (snd p6)))
+                             (pkt_deser a))
+                       | _ ->
+                         N0 :: ((Npos (XI (XI (XO (XO (XO (XI XH))))))) :: []))
+                    | _ ->
+                      N0 :: ((Npos (XI (XI (XO (XO (XO (XI XH))))))) :: []))
+                 | XH -> N0 :: ((Npos (XI (XI (XO (XO (XO (XI XH))))))) :: []))
+              | XO p3 ->
+                (match p3 with
+                 | XI p4 ->
+                   (match p4 with
+                    | XI p5 ->
+                      (match p5 with
+                       | XH ->
+                         enc_oti
+                           (oti_new_pinned Release (arg a O) (arg a (S O))
+                             (arg a (S (S O))) (arg a (S (S (S O))))
+                             (arg a (S (S (S (S O))))))
+                       | _ ->
+                         N0 :: ((Npos (XI (XI (XO (XO (XO (XI XH))))))) :: []))
+                    | _ ->
+                      N0 :: ((Npos (XI (XI (XO (XO (XO (XI XH))))))) :: []))
+                 | _ -> N0 :: ((Npos (XI (XI (XO (XO (XO (XI XH))))))) :: []))
+              | XH -> N0 :: ((Npos (XI (XI (XO (XO (XO (XI XH))))))) :: []))
+           | XH -> N0 :: ((Npos (XI (XI (XO (XO (XO (XI XH))))))) :: []))
+        | XH -> N0 :: ((Npos (XI (XI (XO (XO (XO (XI XH))))))) :: []))
+     | XH -> N0 :: ((Npos (XI (XI (XO (XO (XO (XI XH))))))) :: []))
+
 (** val run : n -> n list -> n list **)
 
 let run f a =
   if N.ltb f (Npos (XO (XO (XI (XO (XO (XI XH)))))))
   then run_octet f a
-  else N0 :: ((Npos (XI (XI (XO (XO (XO (XI XH))))))) :: [])
+  else if N.ltb f (Npos (XO (XO (XO (XI (XO (XO (XI XH))))))))
+       then run_wire f a
+       else N0 :: ((Npos (XI (XI (XO (XO (XO (XI XH))))))) :: [])
